@@ -81,3 +81,33 @@ class PerSampleLabelDataset(KDDataset):
 
     def getshape_class(self):
         return (1 if self.n_classes == 2 else self.n_classes),
+
+
+class TensorDataset(KDDataset):
+    """x[i] is a deterministic (3,16,16) float tensor, fresh object per access; class labels optional"""
+
+    def __init__(self, size, n_classes=3, **kw):
+        super().__init__(**kw)
+        self.size = size
+        self.n_classes = n_classes
+
+    def __len__(self):
+        return self.size
+
+    def getitem_x(self, idx, ctx=None):
+        idx = int(idx)
+        return ((torch.arange(3 * 16 * 16).float().view(3, 16, 16) * (idx + 2)) % 23) / 23
+
+    def getitem_class(self, idx, ctx=None):
+        return (int(idx) * 7 + 1) % self.n_classes
+
+    def getshape_class(self):
+        return (self.n_classes,)
+
+    def getall_class(self):
+        return [self.getitem_class(i) for i in range(self.size)]
+
+
+def identity_collate(batch):
+    """no collation: the delivered batch is the list of samples (contexts may have optional keys)"""
+    return list(batch)
